@@ -173,6 +173,48 @@ def _work(task) -> core.Part:
     return p
 
 
+def _work_runs(task) -> core.Part:
+    """Long runs: k invalid messages in a row (k = 1..40) between valid ones, and k valid ones before an invalid one;
+    a counter or threshold in the forwarding path shows here, not in sequences of <= 4 segments."""
+    ks, = task
+    p = core.Part()
+    for k in ks:
+        seqs = []
+        for good, bads in (("Fp", ("Fbad", "Flen")), ("R", ("Rbad",))):
+            for bad in bads:
+                seqs.append((good,) + (bad,) * k + (good, good))
+                seqs.append((bad,) * k + (good, good))
+                seqs.append((good,) * k + (bad, good))
+        for w in seqs:
+            segs = [SEG[x] for x in w]
+            S = b"".join(segs)
+            cuts = []
+            a = 0
+            for sg in segs[:-1]:
+                a += len(sg)
+                cuts.append(a)
+            fam = [("cuts", []), ("cuts", cuts), ("fixed", 7), ("cuts", cuts[:1])]
+            p.add("nontrivial")
+            for spec in (("H",), ("P",), ("H", "P"), ("P", "H")):
+                for pm in (True, False):
+                    for ch in fam:
+                        try:
+                            errs = check(w, spec, pm, ch)
+                        except Exception as ex:  # noqa: BLE001
+                            p.add("exceptions_seen_(C14)")
+                            continue
+                        p.add("executions")
+                        p.out("forwarded_ok" if not errs else "mismatch")
+                        if errs:
+                            p.viol("forwarding", f"forwarding:run{k}:{w[0]}:{w[1]}:{'/'.join(spec)}:{pm}:{ch[0]}",
+                                   f"{len(w)} segments [{w[0]}, {w[1]} ... {w[-1]}] (run length {k}) readers {list(spec)} {'payload' if pm else 'message'} protocol chunking {ch[0]}: {errs[0]}",
+                                   {"segments": list(w), "readers": list(spec), "payload_mode": pm, "chunking": list(ch)}, size=len(S))
+                            if p.full("forwarding"):
+                                p.capped = True
+                                return p
+    return p
+
+
 def main(run: core.Run) -> int:
     q = run.quick
     run.rule = ("streams = every sequence of <=N segments over {valid frame, header-only frame, bad-FCS frame, wrong-length frame, stuffed frame, valid readout, bad-CRC readout, "
@@ -187,9 +229,12 @@ def main(run: core.Run) -> int:
         tasks += [((a, b, c), N, 2) for a in SEGN for b in SEGN for c in SEGN]
     run.log(f"{len(tasks)} partitions, sequences <= {N} segments")
     run.merge(par.pmap(_work, tasks, seed=run.seed))
+    kmax = 40 if q else 130
+    run.log(f"run-length sweep: k = 1..{kmax}")
+    run.merge(par.pmap(_work_runs, [(list(range(1, kmax + 1))[i::16],) for i in range(16)], seed=run.seed))
     tot = run.total
     tot.sample({"segments": ["Fbad", "R", "Fp"], "readers": ["H", "P"], "protocol": "payload", "chunking": "cut@20", "expected_queue": "payload of R only (P1 reader selected in the chunk where R completes)"})
-    run.bounds = {"segments": f"<= {N}", "candidate_lists": [list(s) for s in SPECS], "pairs_of_cuts": "single segments" if q else "sequences of <= 2 segments (<=120 B)"}
+    run.bounds = {"run_lengths": f"k = 1..{kmax} invalid (or valid) messages in a row around valid ones, 9 stream families x 4 candidate lists x 2 classes x 4 chunkings", "segments": f"<= {N}", "candidate_lists": [list(s) for s in SPECS], "pairs_of_cuts": "single segments" if q else "sequences of <= 2 segments (<=120 B)"}
     run.assumptions = ["the expected queue is computed from fresh real reader instances fed the same chunks (the property is relative to the readers' own output)",
                        "HDLC candidates use abort detection on; 'Hs' = octet stuffing"]
     ex = tot.c.get("executions", 0)
